@@ -1,0 +1,70 @@
+//go:build verif
+
+package kubeeventsmanager
+
+import (
+	"sync"
+
+	"github.com/deckhouse/deckhouse/pkg/log"
+	"k8s.io/apimachinery/pkg/apis/meta/v1/unstructured"
+
+	kemtypes "github.com/flant/shell-operator/pkg/kube_events_manager/types"
+	"github.com/flant/shell-operator/pkg/metric"
+)
+
+// VerifC01Informer wraps a resourceInformer that is not connected to a cluster and whose
+// events are still locked (as between AddMonitor and the unlock that follows a successful
+// Synchronization). The C01/C02 harness calls the watch handlers, the snapshot read and
+// the unlock from goroutines it interleaves at the verifpoint marks.
+type VerifC01Informer struct {
+	ei     *resourceInformer
+	mu     sync.Mutex
+	events []kemtypes.KubeEvent
+}
+
+func NewVerifC01Informer(mc *MonitorConfig, mstor metric.Storage) *VerifC01Informer {
+	v := &VerifC01Informer{}
+	v.ei = newResourceInformer("", "", &resourceInformerConfig{
+		mstor: mstor,
+		eventCb: func(ev kemtypes.KubeEvent) {
+			v.mu.Lock()
+			v.events = append(v.events, ev)
+			v.mu.Unlock()
+		},
+		monitor: mc,
+		logger:  log.NewNop(),
+	})
+	return v
+}
+
+// Handle delivers one watch event through the client-go handler methods.
+func (v *VerifC01Informer) Handle(eventType kemtypes.WatchEventType, obj *unstructured.Unstructured) {
+	switch eventType {
+	case kemtypes.WatchEventAdded:
+		v.ei.OnAdd(obj, false)
+	case kemtypes.WatchEventModified:
+		v.ei.OnUpdate(nil, obj)
+	case kemtypes.WatchEventDeleted:
+		v.ei.OnDelete(obj)
+	}
+}
+
+// Snapshot is the informer's part of Monitor.Snapshot().
+func (v *VerifC01Informer) Snapshot() []kemtypes.ObjectAndFilterResult { return v.ei.getCachedObjects() }
+
+// Enable is the informer's part of Monitor.EnableKubeEventCb().
+func (v *VerifC01Informer) Enable() { v.ei.enableKubeEventCb() }
+
+// Events returns the KubeEvents delivered to the callback so far.
+func (v *VerifC01Informer) Events() []kemtypes.KubeEvent {
+	v.mu.Lock()
+	defer v.mu.Unlock()
+	return append([]kemtypes.KubeEvent{}, v.events...)
+}
+
+// State returns the unlock flag and the number of buffered events.
+func (v *VerifC01Informer) State() (bool, int) {
+	v.ei.eventBufLock.Lock()
+	defer v.ei.eventBufLock.Unlock()
+	return v.ei.eventCbEnabled, len(v.ei.eventBuf)
+}
